@@ -8,16 +8,25 @@ import (
 	"fmt"
 	"go/types"
 	"math/big"
+	"os"
 	"strings"
 
 	"golang.org/x/tools/go/ssa"
 )
 
-func (e *Engine) mkTime(ns *Term) Value {
-	return Struct{e.tt.Const(64, 1), ns, (*Value)(nil)}
+// A time is a signed 72-bit count of Unix nanoseconds (hi8:lo64, two's complement) so that
+// "in-range time + duration" never wraps (Data.CreateShardGroup relies on comparing such a sum
+// with MaxNanoTime). wall = hi8<<8 | 1 (bit 0: "set"), ext = lo64. The zero Time is all zero.
+func (e *Engine) mkTimeWide(hi8, lo *Term) Value {
+	wall := e.tt.Concat(e.tt.Const(48, 0), e.tt.Concat(hi8, e.tt.Const(8, 1)))
+	return Struct{wall, lo, (*Value)(nil)}
 }
 
-func (e *Engine) timeParts(v Value) (set *Term, ns *Term) {
+func (e *Engine) sext8(lo *Term) *Term { return e.tt.SExt(e.tt.Extract(lo, 63, 63), 8) }
+
+func (e *Engine) mkTime(ns *Term) Value { return e.mkTimeWide(e.sext8(ns), ns) }
+
+func (e *Engine) timeWide(v Value) (set, hi8, lo *Term) {
 	st, ok := v.(Struct)
 	if !ok {
 		if p, ok := v.(*Value); ok && p != nil {
@@ -26,19 +35,37 @@ func (e *Engine) timeParts(v Value) (set *Term, ns *Term) {
 			panic(e.unsupported(fmt.Sprintf("time value %T", v)))
 		}
 	}
-	return st[0].(*Term), st[1].(*Term)
+	wall := st[0].(*Term)
+	return e.tt.Extract(wall, 0, 0), e.tt.Extract(wall, 15, 8), st[1].(*Term)
+}
+
+// timeParts returns (set flag as 64-bit 0/1, ns) for operations that need the time to lie in the
+// int64 nanosecond range; a time outside it ends the path as unsupported.
+func (e *Engine) timeParts(v Value) (set *Term, ns *Term) {
+	s1, hi, lo := e.timeWide(v)
+	inRange := e.tt.Eq(hi, e.sext8(lo))
+	if !inRange.IsTrue() {
+		if !e.Decide(inRange) {
+			panic(e.unsupported("time.Time outside the int64 nanosecond range used where its UnixNano is needed"))
+		}
+	}
+	return e.tt.ZExt(s1, 64), lo
+}
+
+func (e *Engine) wideLess(ah, al, bh, bl *Term) *Term {
+	return e.tt.Or(e.tt.Slt(ah, bh), e.tt.And(e.tt.Eq(ah, bh), e.tt.Ult(al, bl)))
 }
 
 func (e *Engine) timeBefore(a, b Value) *Term {
-	as, an := e.timeParts(a)
-	bs, bn := e.timeParts(b)
-	return e.tt.Or(e.tt.Ult(as, bs), e.tt.And(e.tt.Eq(as, bs), e.tt.Slt(an, bn)))
+	as, ah, al := e.timeWide(a)
+	bs, bh, bl := e.timeWide(b)
+	return e.tt.Or(e.tt.Ult(as, bs), e.tt.And(e.tt.Eq(as, bs), e.wideLess(ah, al, bh, bl)))
 }
 
 func (e *Engine) timeEqual(a, b Value) *Term {
-	as, an := e.timeParts(a)
-	bs, bn := e.timeParts(b)
-	return e.tt.And(e.tt.Eq(as, bs), e.tt.Eq(an, bn))
+	as, ah, al := e.timeWide(a)
+	bs, bh, bl := e.timeWide(b)
+	return e.tt.And(e.tt.Eq(as, bs), e.tt.And(e.tt.Eq(ah, bh), e.tt.Eq(al, bl)))
 }
 
 const maxNowNs = uint64(1) << 62
@@ -77,8 +104,8 @@ func registerTimeIntrinsics() {
 			return e.tt.Ite(e.tt.Slt(r, e.tt.Const(64, 0)), e.tt.Bin(OpSub, q, e.tt.Const(64, 1)), q)
 		},
 		"(time.Time).IsZero": func(e *Engine, c *frame, f *ssa.Function, a []Value) Value {
-			s, _ := e.timeParts(a[0])
-			return e.tt.Eq(s, e.tt.Const(64, 0))
+			s, _, _ := e.timeWide(a[0])
+			return e.tt.Eq(s, e.tt.Const(1, 0))
 		},
 		"(time.Time).Before": func(e *Engine, c *frame, f *ssa.Function, a []Value) Value { return e.timeBefore(a[0], a[1]) },
 		"(time.Time).After":  func(e *Engine, c *frame, f *ssa.Function, a []Value) Value { return e.timeBefore(a[1], a[0]) },
@@ -101,32 +128,37 @@ func registerTimeIntrinsics() {
 			return e.load(e.globalAddr(f.Pkg.Members["UTC"].(*ssa.Global)))
 		},
 		"(time.Time).Add": func(e *Engine, c *frame, f *ssa.Function, a []Value) Value {
-			s, ns := e.timeParts(a[0])
+			s, hi, lo := e.timeWide(a[0])
 			d := a[1].(*Term)
 			// the zero Time plus a duration is not representable in the abstraction
 			if !s.IsConst() {
-				if e.Decide(e.tt.Eq(s, e.tt.Const(64, 0))) {
+				if e.Decide(e.tt.Eq(s, e.tt.Const(1, 0))) {
 					panic(e.unsupported("Add on the zero time.Time"))
 				}
 			} else if s.val == 0 {
 				panic(e.unsupported("Add on the zero time.Time"))
 			}
-			return e.mkTime(e.tt.Bin(OpAdd, ns, d))
+			// 72-bit addition with carry
+			nlo := e.tt.Bin(OpAdd, lo, d)
+			carry := e.tt.Ite(e.tt.Ult(nlo, lo), e.tt.Const(8, 1), e.tt.Const(8, 0))
+			nhi := e.tt.Bin(OpAdd, e.tt.Bin(OpAdd, hi, e.sext8(d)), carry)
+			return e.mkTimeWide(nhi, nlo)
 		},
 		"(time.Time).Sub": func(e *Engine, c *frame, f *ssa.Function, a []Value) Value {
-			as, an := e.timeParts(a[0])
-			bs, bn := e.timeParts(a[1])
+			as, ah, al := e.timeWide(a[0])
+			bs, bh, bl := e.timeWide(a[1])
 			if !(as.IsConst() && as.val == 1 && bs.IsConst() && bs.val == 1) {
-				if !e.Decide(e.tt.And(e.tt.Eq(as, e.tt.Const(64, 1)), e.tt.Eq(bs, e.tt.Const(64, 1)))) {
+				if !e.Decide(e.tt.And(e.tt.Eq(as, e.tt.Const(1, 1)), e.tt.Eq(bs, e.tt.Const(1, 1)))) {
 					panic(e.unsupported("Sub involving the zero time.Time"))
 				}
 			}
-			d := e.tt.Bin(OpSub, an, bn)
-			// saturate like the real implementation
-			z := e.tt.Const(64, 0)
-			ovfPos := e.tt.And(e.tt.And(e.tt.Sle(z, an), e.tt.Slt(bn, z)), e.tt.Slt(d, z))
-			ovfNeg := e.tt.And(e.tt.And(e.tt.Slt(an, z), e.tt.Sle(z, bn)), e.tt.Sle(z, d))
-			return e.tt.Ite(ovfPos, e.tt.Const(64, 1<<63-1), e.tt.Ite(ovfNeg, e.tt.Const(64, 1<<63), d))
+			// 72-bit subtraction, saturated to int64 like the real implementation
+			dlo := e.tt.Bin(OpSub, al, bl)
+			borrow := e.tt.Ite(e.tt.Ult(al, bl), e.tt.Const(8, 1), e.tt.Const(8, 0))
+			dhi := e.tt.Bin(OpSub, e.tt.Bin(OpSub, ah, bh), borrow)
+			fits := e.tt.Eq(dhi, e.sext8(dlo))
+			neg := e.tt.Slt(dhi, e.tt.Const(8, 0))
+			return e.tt.Ite(fits, dlo, e.tt.Ite(neg, e.tt.Const(64, 1<<63), e.tt.Const(64, 1<<63-1)))
 		},
 		"time.Since": func(e *Engine, c *frame, f *ssa.Function, a []Value) Value {
 			now := intrinsics["time.Now"](e, c, f, nil)
@@ -203,18 +235,52 @@ func inTimeTruncate(e *Engine, c *frame, f *ssa.Function, a []Value) Value {
 	offm := new(big.Int).Mod(off, big.NewInt(d.S())).Uint64()
 	tt := e.tt
 	dd := tt.Const(64, uint64(d.S()))
-	// floor-mod of ns by d
-	r := tt.Bin(OpSRem, ns, dd)
-	r = tt.Ite(tt.Slt(r, tt.Const(64, 0)), tt.Bin(OpAdd, r, dd), r)
+	var r *Term
+	if ns.IsConst() {
+		rv := ns.S() % d.S()
+		if rv < 0 {
+			rv += d.S()
+		}
+		r = tt.Const(64, uint64(rv))
+	} else {
+		// Away from the ends of the int64 range the floor-division is axiomatised with fresh
+		// quotient/remainder symbols (ns = q*d + r0, 0 <= r0 < d): multiplication by a constant
+		// instead of a 64-bit divider circuit, which is what makes these queries tractable.
+		margin := 2 * d.S()
+		lo := tt.Const(64, uint64(int64(-1<<63)+margin))
+		hi := tt.Const(64, uint64(int64(1<<63-1)-margin))
+		if e.Decide(tt.And(tt.Sle(lo, ns), tt.Sle(ns, hi))) {
+			q := e.freshVar("truncQ", 64)
+			r0 := e.freshVar("truncR", 64)
+			qlo := tt.Const(64, uint64(int64(-1<<63)/d.S()-1))
+			qhi := tt.Const(64, uint64(int64(1<<63-1)/d.S()+1))
+			e.Assume(tt.And(tt.And(tt.Eq(ns, tt.Bin(OpAdd, tt.Bin(OpMul, q, dd), r0)), tt.Ult(r0, dd)),
+				tt.And(tt.Sle(qlo, q), tt.Sle(q, qhi))))
+			r = r0
+		} else {
+			// floor-mod of ns by d
+			r = tt.Bin(OpSRem, ns, dd)
+			r = tt.Ite(tt.Slt(r, tt.Const(64, 0)), tt.Bin(OpAdd, r, dd), r)
+		}
+	}
 	m := tt.Bin(OpAdd, r, tt.Const(64, offm))
 	m = tt.Ite(tt.Ule(dd, m), tt.Bin(OpSub, m, dd), m)
-	return e.mkTime(tt.Bin(OpSub, ns, m))
+	// ns - m may fall below the int64 range (MinNanoTime truncated to a week): 72-bit subtraction
+	nlo := tt.Bin(OpSub, ns, m)
+	borrow := tt.Ite(tt.Ult(ns, m), tt.Const(8, 1), tt.Const(8, 0))
+	return e.mkTimeWide(tt.Bin(OpSub, e.sext8(ns), borrow), nlo)
 }
 
 // ---------------------------------------------------------------------------------------------
 // harness intrinsics
 
 var harnessIntrinsics map[string]intrinsic
+
+var debugLenCap = func() int {
+	n := 0
+	fmt.Sscanf(os.Getenv("VERIF_LEN_CAP"), "%d", &n)
+	return n
+}()
 
 func strArg(e *Engine, v Value) string {
 	s, ok := v.(Str)
@@ -282,6 +348,9 @@ func registerHarnessIntrinsics() {
 	harnessIntrinsics = map[string]intrinsic{
 		"vLen": func(e *Engine, c *frame, f *ssa.Function, a []Value) Value {
 			tag, lo, hi := strArg(e, a[0]), intArg(e, a[1]), intArg(e, a[2])
+			if debugLenCap > 0 && hi > debugLenCap && lo <= debugLenCap {
+				hi = debugLenCap // experiments only (VERIF_LEN_CAP); never set by registered checks
+			}
 			if hi < lo {
 				panic(pathEnd{"assume"})
 			}
